@@ -30,7 +30,7 @@ var c04 = core.Register(&core.Prop{
 	Shards: func(tier string) int { return pickTier(tier, 8, 16) },
 	Floors: func(c map[string]int64, tier string) []string {
 		var out []string
-		for _, k := range []string{"op:+", "op:-", "op:*", "op:/", "op:%", "rounded_results", "exact_ties", "chain_cases", "minimal_parentheses_chains", "disturbers_evaluated", "data_float_cases", "data_int_cases", "handback_exact_domain", "handback_ulp_domain", "host_received"} {
+		for _, k := range []string{"op:+", "op:-", "op:*", "op:/", "op:%", "rounded_results", "exact_ties", "chain_cases", "minimal_parentheses_chains", "disturbers_evaluated", "data_float_cases", "data_values_below_top_level", "data_int_cases", "handback_exact_domain", "handback_ulp_domain", "host_received"} {
 			if c[k] == 0 {
 				out = append(out, "coverage floor: no "+k)
 			}
@@ -252,6 +252,50 @@ type DataNumCase struct {
 	Kind string  `json:"kind"` // f64 int int32 int64
 	F    float64 `json:"f,omitempty"`
 	I    int64   `json:"i,omitempty"`
+	// Where the value sits in the caller's data: "" top-level entry, "map" entry of a nested map[string]interface{},
+	// "tmap" element of a map typed by the value's kind, "field" typed struct field, "anyfield" interface{} struct field
+	Where string `json:"where,omitempty"`
+}
+
+type numHolder struct {
+	F   float64
+	I   int
+	I32 int32
+	I64 int64
+	Any interface{}
+}
+
+// place puts the value where the case says and returns the data map and the path that reads it.
+func (c *DataNumCase) place(gv interface{}) (map[string]interface{}, string) {
+	switch c.Where {
+	case "map":
+		return map[string]interface{}{"o": map[string]interface{}{"v": gv, "w": 1}}, "o.v"
+	case "tmap":
+		switch x := gv.(type) {
+		case float64:
+			return map[string]interface{}{"o": map[string]float64{"v": x}}, "o.v"
+		case int:
+			return map[string]interface{}{"o": map[string]int{"v": x}}, "o.v"
+		case int32:
+			return map[string]interface{}{"o": map[string]int32{"v": x}}, "o.v"
+		case int64:
+			return map[string]interface{}{"o": map[string]int64{"v": x}}, "o.v"
+		}
+	case "field":
+		switch x := gv.(type) {
+		case float64:
+			return map[string]interface{}{"o": numHolder{F: x}}, "o.F"
+		case int:
+			return map[string]interface{}{"o": numHolder{I: x}}, "o.I"
+		case int32:
+			return map[string]interface{}{"o": numHolder{I32: x}}, "o.I32"
+		case int64:
+			return map[string]interface{}{"o": numHolder{I64: x}}, "o.I64"
+		}
+	case "anyfield":
+		return map[string]interface{}{"o": numHolder{Any: gv}}, "o.Any"
+	}
+	return map[string]interface{}{"x": gv}, "x"
 }
 
 func (c *DataNumCase) value() (interface{}, string) {
@@ -275,15 +319,18 @@ var c04Data = core.Mon(c04, "data-entry", func(w *core.W, c *DataNumCase) {
 		w.Skip("non-finite-data")
 		return
 	}
-	data := map[string]interface{}{"x": gv}
-	v, err, panicked, pv := evalArray1("[x]", data)
+	data, path := c.place(gv)
+	if c.Where != "" {
+		w.Count("data_values_below_top_level")
+	}
+	v, err, panicked, pv := evalArray1("["+path+"]", data)
 	if panicked || err != nil {
-		w.Violation("data-entry", "C04/data-entry-error", c, text, fmt.Sprint(pv, err), "[x]")
+		w.Violation("data-entry", "C04/data-entry-error", c, text, fmt.Sprint(pv, err), "["+path+"]")
 		return
 	}
 	d, ok := elem0(v)
 	if !ok {
-		w.Violation("data-entry", "C04/data-not-number", c, text, show(v), fmt.Sprintf("[x] with x = %s(%s)", c.Kind, text))
+		w.Violation("data-entry", "C04/data-not-number", c, text, show(v), fmt.Sprintf("[%s] with the value %s(%s)", path, c.Kind, text))
 		return
 	}
 	if c.Kind == "f64" {
@@ -296,14 +343,14 @@ var c04Data = core.Mon(c04, "data-entry", func(w *core.W, c *DataNumCase) {
 	}
 	got := obs.DecOf(d)
 	if !got.Finite() || !got.Equal(exp) {
-		w.Violation("data-entry", "C04/data-value:"+c.Kind, c, text, got.String(), fmt.Sprintf("[x] with x = %s(%s) gives %s", c.Kind, text, d.String()))
+		w.Violation("data-entry", "C04/data-value:"+c.Kind, c, text, got.String(), fmt.Sprintf("[%s] with the value %s(%s) gives %s", path, c.Kind, text, d.String()))
 		return
 	}
 	// x === the same number written as a literal
 	lit := strings.TrimPrefix(text, "-")
-	src := "x === " + lit
+	src := path + " === " + lit
 	if strings.HasPrefix(text, "-") {
-		src = "x === -" + lit
+		src = path + " === -" + lit
 	}
 	v2, err2, p2, pv2 := evalArray1(src, data)
 	if p2 || err2 != nil {
@@ -311,7 +358,7 @@ var c04Data = core.Mon(c04, "data-entry", func(w *core.W, c *DataNumCase) {
 		return
 	}
 	if v2 != true {
-		w.Violation("data-entry", "C04/data-literal-identity:"+c.Kind, c, true, show(v2), fmt.Sprintf("%s with x = %s(%s)", src, c.Kind, text))
+		w.Violation("data-entry", "C04/data-literal-identity:"+c.Kind, c, true, show(v2), fmt.Sprintf("%s with the value %s(%s)", src, c.Kind, text))
 	}
 })
 
@@ -684,6 +731,10 @@ func runC04(w *core.W) {
 			c = &DataNumCase{Kind: "int32", I: int64(int32(r.Uint32()))}
 		}
 		c04Data(w, c)
+		// the same value below the top level of the data: in a nested map, a map typed by its kind, a typed and an untyped struct field
+		nc := *c
+		nc.Where = []string{"map", "tmap", "field", "anyfield"}[(i/6)%4]
+		c04Data(w, &nc)
 		if i%3001 == 0 {
 			_, t := c.value()
 			w.Sample("data", c.Kind+":"+t)
